@@ -2,7 +2,7 @@
 # usage: benign_regress.sh   runs the checks named per harmless change (benign/b*/checks, or the defaults below) against a scratch copy of
 # /repo carrying that change; every line must end without VIOLATION: these are behaviour-preserving edits.
 cd "$(dirname "$0")/.."
-declare -A CH=( [b1]="C01 C02 C14 C17" [b2]="C02 C14 C03" [b3]="C15 C18" [b4]="C16 C02" [b5]="C16" [b6]="C06 C04" [b7]="C11 C07" [b8]="C11"
+declare -A CH=( [b1]="C01 C02 C14 C17" [b2]="C02 C14 C03 C15" [b3]="C15 C18" [b4]="C16 C02" [b5]="C16" [b6]="C06 C04 C15" [b7]="C11 C07" [b8]="C11"
                 [b9]="C12 C13 C17" [b10]="C09 C10 C11" [b11]="C08" [b12]="C03"
                 [b13]="C16" [b14]="C16 C14" [b15]="C02 C14 C03" [b16]="C14 C17" [b17]="C17 C14 C07" [b18]="C17 C07 C01" [b19]="C11 C07" [b20]="C11"
                 [b21]="C17 C14" [b22]="C17 C14 C13" [b23]="C14 C02" [b24]="C06 C04 C15" [b25]="C15" [b26]="C04 C16" )
